@@ -121,8 +121,20 @@ def selector_texts(sv, tier='thorough'):
 CONTEXTS = ('form', 'legend', 'toplevel', 'parentless', 'iframe', 'xml', 'xhtml')
 
 
+COMPANIONS = (
+    ('e', 'input', (('type', 'radio'), ('name', 'n'), ('class', ('a', 'b')), ('checked', '')), ()),
+    ('e', 'input', (('type', 'radio'), ('name', ''), ('rel', ('x',))), ()),
+    ('e', 'button', (('type', 'submit'), ('class', ('s',))), ()),
+    ('e', 'p', (('lang', 'en'), ('dir', 'auto'), ('class', 'plain string')), (('t', 'ab'),)),
+    ('e', 'input', (('type', 'radio'), ('name', 'n'), ('id', 'r2')), ()),
+)
+
+
 def wrap(context, batch):
-    """-> (forest, xml?, parentless?)"""
+    """-> (forest, xml?, parentless?)   Fixed companions surround every batch so that code which scans OTHER elements of the same form
+    or document (radio groups, default buttons, language lookup) meets list-valued and unusual attributes there too."""
+    if context not in ('parentless', 'xhtml'):
+        batch = list(COMPANIONS[:3]) + list(batch) + list(COMPANIONS[3:])
     if context == 'form':
         return (('e', 'html', (), (('e', 'body', (), (('e', 'form', (), (('e', 'fieldset', (('disabled', ''),), tuple(batch)),)),)),)),), False, False
     if context == 'legend':
@@ -147,7 +159,8 @@ def wrap(context, batch):
 
 def shards(tier, seed):
     n = 48 if tier == 'quick' else 160
-    return [('main', tier, i, n) for i in range(n)] + [('odd', tier, 0, 1), ('nontag', tier, 0, 1), ('huge', tier, 0, 1)]
+    return [('main', tier, i, n) for i in range(n)] + [('odd', tier, 0, 1), ('nontag', tier, 0, 1), ('huge', tier, 0, 1),
+                                                        ('degenerate', tier, 0, 1)]
 
 
 def call_all(sv, c, text, target, els, res, full=True):
@@ -380,12 +393,48 @@ def run_huge(sv, tier, res):
         res.nontrivial += 1
 
 
+DEGENERATE = [('', 'html.parser'), ('just text', 'html.parser'), ('<!--c-->', 'html.parser'), ('<!DOCTYPE html>', 'html.parser'),
+              ('', 'lxml'), ('', 'xml'), ('<!--c--> \n', 'lxml'), ('', 'html5lib'), ('<?xml version="1.0"?><!--c-->', 'xml'),
+              ('api-empty-html', None), ('api-empty-xml', None), ('api-text-only', None)]
+
+
+def degenerate_doc(markup, parser):
+    import bs4
+    if parser is None:
+        soup = bs4.BeautifulSoup('', 'xml' if 'xml' in markup else 'html.parser')
+        if 'text' in markup:
+            soup.append(bs4.element.NavigableString('x'))
+            soup.append(bs4.Comment('c'))
+        return soup
+    return bs4.BeautifulSoup(markup, parser)
+
+
+def run_degenerate(sv, tier, res):
+    """Documents without any element, and elements without any content."""
+    texts, base = selector_texts(sv, tier)
+    for di, (markup, parser) in enumerate(DEGENERATE):
+        for text in texts:
+            c = sv.compile(text)
+            soup = degenerate_doc(markup, parser)
+            bad = call_all(sv, c, text, soup, [], res)
+            if bad:
+                entry, why = bad[0]
+                res.fail({'layer': 'degenerate', 'doc': di, 'selector': text},
+                         {'kind': 'raise', 'exc': why.split(':')[0], 'values': 'element-less document'},
+                         f'{entry}({text!r}) on an element-less document ({markup!r}, {parser}): {why}')
+                break
+            res.outcome('returned')
+        res.nontrivial += 1
+
+
 def run_shard(desc):
     from .. import common
     sv = common.bind()
     warnings.simplefilter('ignore')
     res = shard.Result()
-    if desc[0] == 'huge':
+    if desc[0] == 'degenerate':
+        run_degenerate(sv, desc[1], res)
+    elif desc[0] == 'huge':
         run_huge(sv, desc[1], res)
     elif desc[0] == 'main':
         run_main(sv, desc[1], desc[2], desc[3], res)
@@ -412,6 +461,10 @@ def replay(case):
             return {'kind': 'compile', 'exc': type(e).__name__}, repr(e)
     text = case['selector']
     c = sv.compile(text)
+    if case['layer'] == 'degenerate':
+        soup = degenerate_doc(*DEGENERATE[case['doc']])
+        bad = call_all(sv, c, text, soup, [], shard.Result())
+        return ({'kind': 'raise', 'exc': bad[0][1].split(':')[0], 'values': 'element-less document'}, str(bad[0])) if bad else None
     if case['layer'] == 'odd':
         spec = _dec(case['element'])
         soup = T.build_api((('e', 'div', (), (spec, ('e', 'p', (('t', '0'),), ()))),), case['xml'])
